@@ -5,6 +5,7 @@ Values are set expressions over literal interval lists and named symbols:
   ('lit', ((lo,hi),...))  ('sym', name)  ('union', frozenset)  ('diff', A, B)  ('compl', A)
 Literal parts are normalised to sorted disjoint intervals, so splitting or
 merging ranges is not an alarm."""
+import re
 from .facts import callee, strip_lt
 from .sym import StaticEnv, show, short
 
@@ -322,6 +323,15 @@ class SetInterp:
                 if res is not None:
                     self.sets[dest] = res
                     continue
+            if re.search(r"(OnceLock|OnceCell)::<.*>::get_or_init(::<.*>)?$", sr) and len(args) == 2:
+                # a set computed once and kept: what the initialising closure computes (that the static is written
+                # by nobody else is API-STATICS' obligation)
+                cv = self.val(args[1])
+                if cv[0] == "closure" and not cv[2] and self.depth < 4:
+                    res = eval_fn(self.ctx, cv[1], None, None, self.depth + 1)
+                    if res is not None:
+                        self.sets[dest] = res
+                        continue
             if r.endswith("to_code_point_inversion_list") or r.endswith("as_code_point_inversion_list"):
                 self.sets[dest] = self.set_of_operand(args[0])
                 continue
